@@ -8,6 +8,17 @@
    the driver reports a PANIC line as a finding before the acceptance test is even consulted (ocaml/driver.ml), whatever
    the expectation is. Evidence level of C15 as a whole: exploration, plus the model-level theorems below.
 
+   TRUSTED HARNESS FACTS on which that exploration rests (none of them is a Coq theorem):
+   - the driver (ocaml/driver.ml) prints a PANIC answer of the harness as a finding WITHOUT consulting [judge]; so a panic
+     can never be "accepted" by an expectation, however weak;
+   - catch_unwind sees unwinding panics only. An abort (panic=abort paths, stack overflow, a double panic, process::abort),
+     or a call that never returns, produces no answer line at all: the runner (lib/runner.py) treats a missing answer or a
+     non-zero exit status of the harness process as a BROKEN RUN, not as a pass; the model-level counterpart is
+     C15_no_answer_rejected_anywhere below: an empty answer is rejected by [judge] for every operation and every input;
+   - "every public function and trait implementation": completeness of the API registry rests on lib/apiscan.py (the
+     scan of the crate's public items) and lib/apimap.py (the map from items to harness operations); an item the scan
+     misses is not exercised.
+
    What is proved here (all axiom-free, theories/TotalityProofs.v) is that the SPECIFICATION the implementation is judged
    against - [expected o md args] of theories/Judge.v with the acceptance test [judge] / its status-free form [acc]
    (theories/Status.v) - is total and demands a normal return with a value:
@@ -16,7 +27,8 @@
      arguments; operand words in [0, 2^128); any integer for scaleb's exponent, for from-integer and from-binary sources;
      predicate index 0..19 for the comparisons; any byte list for the string entry points parse / FromStr / serde
      deserialisation; any list for the tag of d128::nan; no argument for the constants and the macro samples; any list of
-     operand words for sum and product - no length bound, by induction over the list) some (returned values, raised flags) pair is
+     operand words for sum and product - no length bound, by induction over the list; a slice length n >= 0 followed by
+     exactly 2n operand words for hash_slice) some (returned values, raised flags) pair is
      accepted OUTRIGHT (verdict 1, not merely as a recorded known finding). So the specification never asks the
      impossible and leaves no input undefined: NaN, Err, indefinite integer + invalid are ordinary accepted results.
      C15_spec_total_judge: the same through [judge], from every entry status word.
@@ -30,14 +42,14 @@
      constructor that the line protocol can produce (ocaml/ops_table.ml) is covered (C15_protocol_ops_covered;
      [shape_ok] does not look at the parameters w, signed, mode, xflag of the conversions).
    - C15_no_answer_rejected(_judge): an empty list of returned values - the observable form of "the call did not
-     return" - is never accepted, neither outright nor as a known finding; C15_exact_outcomes_have_values: every outcome
+     return" - is never accepted, neither outright nor as a known finding, for every (operation, arguments) in the domain,
+     WITHOUT exception; C15_no_answer_rejected_anywhere: outside the domain nothing is accepted, so [judge] rejects the
+     empty answer for every operation, mode, argument list and status words. C15_exact_outcomes_have_values: every outcome
      listed by a list expectation carries at least one value.
-     EXCEPTION, stated exactly (C15_unconstrained_cases, C15_unconstrained_accept_anything): frexp of a zero, an infinity
-     or a NaN, and quantum of a NaN. There DESIGN 10/C09, 10/C11 and section 14 leave the result open ("only no panic is
-     required") and the model's predicate is [any_out], which accepts every output list INCLUDING the empty one; for
-     these inputs the acceptance test alone does not demand a returned value (the driver's PANIC report does not depend
-     on it). This is a remark about the model, not a weakening made here: for all other (operation, arguments) the
-     theorem is unconditional.
+     Where the VALUES are left open (C15_unconstrained_cases: frexp of a zero, an infinity or a NaN, and quantum of a NaN;
+     DESIGN 10/C09, 10/C11 and section 14: "only no panic is required") the model's predicate is [any_out] = "a non-empty
+     output list", with no flag: C15_unconstrained_accept_any_value - accepted iff at least one value is returned and
+     nothing is raised. (Earlier versions of the model accepted the empty list there; that exception is gone.)
    - C15_deterministic_where_stated / C15_accepted_unique: whenever the expectation is a list, the operation is not
      min/max, sum or product, and at most one operand is a NaN, the list has exactly one element, so exactly one
      (values, flags) behaviour is accepted. (With two NaN operands, equal-valued min/max operands, or NaN choices inside
@@ -75,15 +87,19 @@ Theorem C15_domain_exact : forall o md args,
 Proof. intros o md args. split; [apply undefined_is_empty|apply defined_iff_satisfiable]. Qed.
 Print Assumptions C15_domain_exact.
 
-Theorem C15_no_answer_rejected : forall o md args, defined_op o args = true -> unconstrained o args = false ->
+Theorem C15_no_answer_rejected : forall o md args, defined_op o args = true ->
   forall outs fl, acc (expected o md args) outs fl <> 0 -> outs <> [].
 Proof. exact no_answer_rejected. Qed.
 Print Assumptions C15_no_answer_rejected.
 
-Theorem C15_no_answer_rejected_judge : forall o md args, defined_op o args = true -> unconstrained o args = false ->
+Theorem C15_no_answer_rejected_judge : forall o md args, defined_op o args = true ->
   forall fin fout, judge (expected o md args) fin [] fout = 0.
 Proof. exact no_answer_rejected_judge. Qed.
 Print Assumptions C15_no_answer_rejected_judge.
+
+Theorem C15_no_answer_rejected_anywhere : forall o md args fin fout, judge (expected o md args) fin [] fout = 0.
+Proof. exact no_answer_rejected_anywhere. Qed.
+Print Assumptions C15_no_answer_rejected_anywhere.
 
 Theorem C15_exact_outcomes_have_values : forall o md args l, defined_op o args = true -> expected o md args = Exact l ->
   l <> [] /\ forall oc, In oc l -> fst oc <> [].
@@ -96,10 +112,11 @@ Theorem C15_unconstrained_cases : forall o args, unconstrained o args = true <->
 Proof. exact unconstrained_cases. Qed.
 Print Assumptions C15_unconstrained_cases.
 
-Theorem C15_unconstrained_accept_anything : forall o md args, unconstrained o args = true ->
-  expected o md args = Pred any_out [0] /\ acc (expected o md args) [] 0 = 1.
-Proof. intros o md args U. split; [apply unconstrained_spec, U|apply unconstrained_accepts_empty, U]. Qed.
-Print Assumptions C15_unconstrained_accept_anything.
+Theorem C15_unconstrained_accept_any_value : forall o md args, unconstrained o args = true ->
+  expected o md args = Pred any_out [0] /\
+  forall outs fl, acc (expected o md args) outs fl = 1 <-> outs <> [] /\ fl = 0.
+Proof. intros o md args U. split; [apply unconstrained_spec, U|intros outs fl; apply unconstrained_accepts, U]. Qed.
+Print Assumptions C15_unconstrained_accept_any_value.
 
 Theorem C15_deterministic_where_stated : forall o md args l,
   det_op o = true -> defined_op o args = true ->
@@ -140,6 +157,7 @@ Example C15_protocol_ops_covered :
      OMinMax MaxMag; OScaleb 32; OScaleb 64; OSameQuantum; OTotalOrder; OTotalOrderMag; OCopySign; OOps; OHashEq;
      OHashSet; OOpArith OAdd; OOpArith OSub; OOpArith OMul; OOpArith ODiv; OOpArith ORem] &&
   shape_ok OFma [ex_snan; ex_inf; ex_zero] && shape_ok OCmp [ex_snan; ex_inf; 19] &&
+  shape_ok OHashSliceEq [0] && shape_ok OHashSliceEq [2; ex_snan; ex_one; ex_inf; ex_ten_m1] &&
   shape_ok (OScaleb 32) [ex_one; -5] && shape_ok (OFromInt 64 true) [-1] &&
   forallb (fun o => shape_ok o [49; 69; 50; 120; 255; 0] && shape_ok o []) [OParse; OFromStr; OFromStr2; OSerdeDe; ONanTag] &&
   shape_ok OConsts [] && shape_ok OMacro [] &&
@@ -150,7 +168,9 @@ Proof. vm_compute. reflexivity. Qed.
 Example C15_outside_domain :
   defined_op OSerde [] = false /\ defined_op OConsts [ex_one] = false /\ defined_op OMacro [0] = false /\
   defined_op (OOpArith OSqrt) [ex_one; ex_one] = false /\
-  defined_op OAdd [ex_one] = false /\ shape_ok OAdd [ex_one; -1] = false /\ shape_ok OCmp [ex_one; ex_one; 20] = false.
+  defined_op OAdd [ex_one] = false /\ shape_ok OAdd [ex_one; -1] = false /\ shape_ok OCmp [ex_one; ex_one; 20] = false /\
+  defined_op OHashSliceEq [] = false /\ defined_op OHashSliceEq [-1] = false /\
+  defined_op OHashSliceEq [2; ex_one; ex_one; ex_one] = false /\ shape_ok OHashSliceEq [1; ex_one; -1] = false.
 Proof. vm_compute. repeat split; reflexivity. Qed.
 
 (* the empty string: garbage, satisfied by the default quiet NaN with no flag; no value at all is rejected *)
@@ -189,11 +209,18 @@ Example C15_serde_nan_consts :
   acc (expected OConsts RNE []) [] 0 = 0 /\ acc (expected OMacro RNE []) [] 0 = 0.
 Proof. vm_compute. repeat split; reflexivity. Qed.
 
-(* the exception: frexp of a zero is unconstrained in the model, an empty output list is accepted by [acc] *)
+(* frexp of a zero is unconstrained in the model: any values are accepted, but not the empty list and not a flag *)
 Example C15_frexp_zero_unconstrained :
-  unconstrained OFrexp [ex_zero] = true /\ acc (expected OFrexp RNE [ex_zero]) [] 0 = 1 /\
-  unconstrained OFrexp [ex_one] = false /\ unconstrained OQuantum [ex_qnan1] = true /\ unconstrained OQuantum [ex_inf] = false.
+  unconstrained OFrexp [ex_zero] = true /\ acc (expected OFrexp RNE [ex_zero]) [] 0 = 0 /\
+  acc (expected OFrexp RNE [ex_zero]) [ex_zero; 0] 0 = 1 /\ acc (expected OFrexp RNE [ex_zero]) [12345] 0 = 1 /\
+  acc (expected OFrexp RNE [ex_zero]) [ex_zero; 0] F_INV = 0 /\
+  unconstrained OFrexp [ex_one] = false /\ unconstrained OQuantum [ex_qnan1] = true /\ unconstrained OQuantum [ex_inf] = false /\
+  acc (expected OQuantum RNE [ex_qnan1]) [] 0 = 0 /\ acc (expected OQuantum RNE [ex_qnan1]) [ex_qnan1] 0 = 1.
 Proof. vm_compute. repeat split; reflexivity. Qed.
+(* hash_slice: [1] (identical hasher input) is always acceptable; no answer is rejected *)
+Example C15_hash_slice :
+  acc (expected OHashSliceEq RNE [1; ex_one; ex_ten_m1]) [1] 0 = 1 /\ acc (expected OHashSliceEq RNE [1; ex_one; ex_ten_m1]) [] 0 = 0.
+Proof. vm_compute. split; reflexivity. Qed.
 
 (* hypotheses of the determinism theorem are satisfiable, and its exclusions are needed *)
 Example C15_det_hyps :
